@@ -18,7 +18,7 @@ from jax.dtypes import result_type
 import scico.numpy as snp
 from scico.numpy import Array, BlockArray
 from scico.numpy.util import broadcast_nested_shapes, is_nested
-from scico.operator._operator import _wrap_mul_div_scalar
+from scico.operator._operator import Operator, _wrap_mul_div_scalar
 from scico.typing import BlockShape, DType, Shape
 
 from ._linop import LinearOperator, _wrap_add_sub
@@ -329,7 +329,13 @@ class Identity(ScaledIdentity):
         return self
 
     def __matmul__(self, other):
-        return other
+        if isinstance(other, Operator):
+            if self.input_shape != other.output_shape:
+                raise ValueError(f"Shapes {self.shape} and {other.shape} do not match.")
+            return other
+        return self(other)
 
     def __rmatmul__(self, x: Union[Array, BlockArray]) -> Union[Array, BlockArray]:
+        if isinstance(x, Operator) and x.input_shape != self.output_shape:
+            raise ValueError(f"Shapes {x.shape} and {self.shape} do not match.")
         return x
